@@ -193,7 +193,149 @@ def c_worker(args):
     return hutil.export(chk)
 
 
+def tables_worker(args):
+    """struct/union, field, enum and typename tables of an out-of-line ABI module: the real encoder classes of
+    recompiler.py produce the module's literals (format_four_bytes / as_python_bytes are represented by 4 symbolic
+    big-endian bytes each -- their correctness is the 'python-codec' case), the real ffiobj_init decodes them."""
+    prop, tier, kind, flags_text, bitfield = args
+    chk = hutil.sub_check(prop, tier)
+    mod = irgen.backend()
+    sys.path.insert(0, os.path.join(common.REPO, 'src'))
+    from cffi import recompiler, cffi_opcode
+    label = 'tables:flags=%s:%s' % (flags_text, 'bitfield' if bitfield else 'plain-field')
+    FF = mod.struct_layout(('named', 'struct.FFIObject_s'))
+    tb_off = FF[0][6]
+    ctxl = mod.struct_layout(('named', 'struct._cffi_type_context_s'))[0]
+    sul = mod.struct_layout(('named', 'struct._cffi_struct_union_s'))
+    fl = mod.struct_layout(('named', 'struct._cffi_field_s'))
+    el = mod.struct_layout(('named', 'struct._cffi_enum_s'))
+    tnl = mod.struct_layout(('named', 'struct._cffi_typename_s'))
+    ex = llsym.Executor(mod, pystubs.stubs(), loop_bound=32)
+
+    def h(ex):
+        py = pystubs.PyEnv(ex)
+        markers = []
+
+        def four(v):
+            """stand-in for format_four_bytes(v): an escaped marker quad, replaced by v's 4 big-endian bytes below"""
+            markers.append(v)
+            return '\\x%02x\\xf1\\xf2\\xf3' % (0xE0 + len(markers) - 1)
+
+        class Op(object):                       # a CffiOp whose packed word is symbolic
+            def __init__(self, op, word):
+                self.op, self.word = op, word
+
+            def as_python_bytes(self):
+                return four(self.word)
+        saved = recompiler.format_four_bytes
+        recompiler.format_four_bytes = four
+        try:
+            S_idx, E_idx, T_idx = (z3.BitVec(n, 32) for n in ('struct_type_index', 'enum_type_index', 'typename_type_index'))
+            F_word, F_bits = z3.BitVec('field_type_op', 32), z3.BitVec('field_bitsize', 32)
+            # the decoder dispatches on the opcode byte of the field: bit-field entries carry a size, plain ones do not
+            want_op = cffi_opcode.OP_BITFIELD if bitfield else cffi_opcode.OP_NOOP
+            ex.assume(z3.And(z3.Extract(7, 0, F_word) == want_op, z3.ULT(F_word, 1 << 31)))
+            fields = [] if 'OPAQUE' in flags_text else [recompiler.FieldExpr('fld', 'offsetof', 'sizeof', F_bits, Op(want_op, F_word))]
+            su = recompiler.StructUnionExpr('s_name', S_idx, flags_text, 'size', 'align', 'comment', 0, fields)
+            enum_size, enum_signed = 2, 1
+            en = recompiler.EnumExpr('e_name', E_idx, enum_size, enum_signed, 'A,BB')
+            tn = recompiler.TypenameExpr('t_name', T_idx)
+            lit_su = ast.literal_eval(su.as_python_expr())
+            lit_en = ast.literal_eval(en.as_python_expr())
+            lit_tn = ast.literal_eval(tn.as_python_expr())
+        finally:
+            recompiler.format_four_bytes = saved
+        if not isinstance(lit_su, tuple):
+            lit_su = (lit_su,)
+
+        def to_obj(b):
+            data, i = [], 0
+            while i < len(b):
+                if 0xE0 <= b[i] < 0xE0 + len(markers) and b[i + 1:i + 4] == b'\xf1\xf2\xf3':
+                    v = markers[b[i] - 0xE0]
+                    v = bv(v, 32)
+                    data += [z3.Extract(31, 24, v), z3.Extract(23, 16, v), z3.Extract(15, 8, v), z3.Extract(7, 0, v)]
+                    i += 4
+                else:
+                    data.append(b[i])
+                    i += 1
+            return py.new_bytes(data)
+        t_su = py.new_tuple([py.new_tuple([to_obj(x) for x in lit_su])])
+        t_en = py.new_tuple([to_obj(lit_en)])
+        t_tn = py.new_tuple([to_obj(lit_tn)])
+        ffi = py.new_obj('ffi', 'FFI_Type', FF[1] + 16)
+        for off in range(16, FF[1], 8):
+            ex.mem.store(ffi + off, 0, 8)
+
+        def parse(ex2, a_, k_, fmt, kw, *outs):
+            # ffiname, version, types, types_len, (type, globals), (type, struct_unions), (type, enums), (type, typenames), (type, includes)
+            ex2.mem.store(outs[1], 0x2601, 8)
+            ex2.mem.store(outs[7], t_su, 8)
+            ex2.mem.store(outs[9], t_en, 8)
+            ex2.mem.store(outs[11], t_tn, 8)
+            return 1
+
+        def pymalloc(ex2, n):
+            n = ex2.concretize(n, 64, 64, 'PyMem_Malloc size')
+            return ex2.mem.alloc(n, 'PyMem_Malloc (exact size)', 'heap').base
+        ex.stubs.update({'_PyArg_ParseTupleAndKeywords_SizeT': parse, 'PyMem_Malloc': pymalloc, 'PyMem_Free': lambda e, p: None})
+        r = simp(ex.call('ffiobj_init', [ffi, py.new_opaque('args-tuple'), 0]))
+        inputs = {'struct_type_index': S_idx, 'enum_type_index': E_idx, 'typename_type_index': T_idx, 'field_type_op': F_word, 'field_bitsize': F_bits}
+        hutil.witness(chk, ex, label)
+        okk = (r == 0) and py.exc is None
+        hutil.discharge(chk, ex, label + ':module-initialises', okk, inputs)
+        if not okk:
+            return
+        ctx = ffi + tb_off
+        ld = lambda a, n: ex.mem.load(a, n)
+
+        def cstr(p_):
+            return llsym.c_string(ex, simp(p_)).decode()
+        flags = eval(flags_text, cffi_opcode.G_FLAGS)
+        su_p = simp(ld(ctx + ctxl[3], 8))
+        D = lambda nm, c: hutil.discharge(chk, ex, label + ':' + nm, c, inputs)
+        D('num_struct_unions==1', simp(ld(ctx + ctxl[7], 4)) == 1)
+        D('struct.name', cstr(ld(su_p + sul[0][0], 8)) == 's_name')
+        D('struct.type_index', bv(ld(su_p + sul[0][1], 4), 32) == S_idx)
+        D('struct.flags', simp(ld(su_p + sul[0][2], 4)) == flags)
+        opaque = bool(flags & (cffi_opcode.F_OPAQUE | cffi_opcode.F_EXTERNAL))
+        D('struct.num_fields', llsym.signed(simp(ld(su_p + sul[0][6], 4)), 32) == (0 if opaque else len(fields)))
+        D('struct.first_field_index', llsym.signed(simp(ld(su_p + sul[0][5], 4)), 32) == (-1 if opaque else 0))
+        D('struct.size-and-alignment-marked-unknown', simp(ld(su_p + sul[0][3], 8)) == (mask(64) if opaque else mask(64) - 1)
+          and llsym.signed(simp(ld(su_p + sul[0][4], 4)), 32) == (-1 if opaque else -2))
+        if fields:
+            f_p = simp(ld(ctx + ctxl[2], 8))
+            D('field.name', cstr(ld(f_p + fl[0][0], 8)) == 'fld')
+            D('field.type_op', bv(ld(f_p + fl[0][3], 8), 64) == z3.ZeroExt(32, F_word))
+            D('field.offset-unknown', simp(ld(f_p + fl[0][1], 8)) == mask(64))
+            if bitfield:
+                D('field.size==bit-width', bv(ld(f_p + fl[0][2], 8), 64) == z3.SignExt(32, F_bits))
+            else:
+                D('field.size-unknown', simp(ld(f_p + fl[0][2], 8)) == mask(64))
+        e_p = simp(ld(ctx + ctxl[4], 8))
+        D('num_enums==1', simp(ld(ctx + ctxl[8], 4)) == 1)
+        D('enum.name', cstr(ld(e_p + el[0][0], 8)) == 'e_name')
+        D('enum.type_index', bv(ld(e_p + el[0][1], 4), 32) == E_idx)
+        D('enum.type_prim==int16_t', simp(ld(e_p + el[0][2], 4)) == cffi_opcode.PRIM_INT16)
+        D('enum.enumerators', cstr(ld(e_p + el[0][3], 8)) == 'A,BB')
+        t_p = simp(ld(ctx + ctxl[5], 8))
+        D('num_typenames==1', simp(ld(ctx + ctxl[9], 4)) == 1)
+        D('typename.name', cstr(ld(t_p + tnl[0][0], 8)) == 't_name')
+        D('typename.type_index', bv(ld(t_p + tnl[0][1], 4), 32) == T_idx)
+
+    def on_oob(ex, what_, model):
+        chk.report_failure('%s: stray memory access: %s' % (label, what_), {}, None, None)
+    ex.on_oob = on_oob
+    res = ex.explore(h, max_paths=2000)
+    hutil.finish_explore(chk, ex, res, label)
+    chk.functions = irgen.func_info(mod, sorted(ex.called)) + [{'name': n + '.as_python_expr', 'file': 'src/cffi/recompiler.py'}
+                                                               for n in ('StructUnionExpr', 'FieldExpr', 'EnumExpr', 'TypenameExpr')]
+    return hutil.export(chk)
+
+
 def dispatch(args):
+    if args[2] == 'tables':
+        return tables_worker(args)
     return (py_worker if args[2] == 'py' else c_worker)(args)
 
 
@@ -203,7 +345,15 @@ def run(chk):
                   'integer constants': 'every Python int in [-2**63, 2**64)'}
     chk.outside = ['whole-module equivalence (typedefs, structs, functions, globals through import machinery and realize_c_type on live '
                    'objects): not encodable; only the codec every declaration goes through is decided',
-                   'arg >= 2**23 (more than 8 million types)', 'struct/enum/typename table unpacking in ffiobj_init']
+                   'arg >= 2**23 (more than 8 million types)', 'tables with several entries (each entry is decoded by the same loop body)']
     chk.assume('CPython contracts of vf/pystubs.py; PyObject_RichCompareBool(o, False, Py_LE) == (o <= 0)')
     irgen.backend()
-    hutil.run_cases(chk, [P + ('py',), P + ('c-opcode',), P + ('c-consts',)], dispatch)
+    cases = [P + ('py',), P + ('c-opcode',), P + ('c-consts',)]
+    for fl_ in ('0', '_CFFI_F_UNION', '_CFFI_F_CHECK_FIELDS|_CFFI_F_PACKED', '_CFFI_F_OPAQUE', '_CFFI_F_EXTERNAL'):
+        for bf in (False, True):
+            if 'OPAQUE' in fl_ or 'EXTERNAL' in fl_:
+                if bf:
+                    continue
+            cases.append(P + ('tables', fl_, bf))
+    chk.bounds['tables'] = 'one struct/union (5 flag combinations) with one plain or bit-field member, one enum, one typename: every 32-bit type index, field opcode word and bit width'
+    hutil.run_cases(chk, cases, dispatch)
